@@ -1,6 +1,8 @@
 import RemocModel.Rtc.Lin
 import RemocModel.Rtc.MutOrder
 import RemocModel.Rtc.Example
+import RemocModel.Rtc.RfnLive
+import RemocModel.Rtc.RfnExample
 set_option linter.unusedSimpArgs false
 set_option linter.unusedVariables false
 
@@ -33,10 +35,10 @@ Partial, spelled out:
 * the served object's methods are *modelled* as lists of atomic segments of a deterministic
   object (DESIGN.md, C12 "Partial"); `&self` methods are assumed not to modify the object
   (`Obj.ReadOnly`, interior mutability is outside the model);
-* remote function calls (`rfn`) have the same shape (request queue, fresh `rch::oneshot` reply
-  channel per request, provider loop: `RFn` = shared/spawn, `RFnMut` = inline (`inline_serial`),
-  `RFnOnce` = by-value, all without the `closed()` race); they are covered as instances of the
-  model, the harness exercises the trait machinery only.
+* remote function calls (`rfn`) have a model of their own, M_rfn (`RemocModel/Rtc/Rfn.lean`:
+  provider drop, the concurrency semaphore of `RFn`, the one-request provider of `RFnOnce` and the
+  silently dropped result-send errors have no counterpart in M_rtc); the theorems `rfn_*` are at
+  the end of this file, the harness `rfn` drives the real wrappers.
 -/
 
 namespace Remoc.Rtc
@@ -282,3 +284,189 @@ example : (run (cfgSM .pinned) (init ctr) (run1.take 8)).loop = .acquiring 1
 example : Reachable (cfgSM .pinned) (run (cfgSM .pinned) (init ctr) run1) := ⟨run1, rfl⟩
 
 end Remoc.Rtc
+
+/-!
+# C12 for remote functions (`remoc::rfn::{RFn, RFnMut, RFnOnce}`)
+
+Theorems about M_rfn (`RemocModel/Rtc/Rfn.lean`) for **every** label list (all interleavings of
+concurrent calls, caller drop at every stage, provider drop, connection loss, requests / results
+that cannot be transmitted), all three flavours, both cancellation variants, local and transported
+wrappers (`cfg` universally quantified) and an arbitrary deterministic function `f` whose body is a
+list of atomic segments.
+
+* `rfn_result_channel_fresh`, `rfn_reply_to_own_caller` — a value delivered to call `c` was
+  produced by the execution started from request `c` with the argument of `c`.
+* `rfn_at_most_once` — every request is taken at most once, each segment runs at most once, at
+  most one execution of it ends; a value outcome means exactly one complete execution with the
+  argument passed, an error outcome at most one (`rfn_not_executed_before_dispatch`: none at all
+  while the request has not been taken).
+* `rfn_mut_serial` — `RFnMut` (and `RFnOnce`): at most one request executes at any time, the
+  recorded executions never overlap, they end in the order in which their requests were taken,
+  and they form a sequential execution of the function: every finished execution returned what the
+  sequential function returns in the state left by the executions that ended before it
+  (linearizable, with the dequeue order as the witness).
+* `rfn_once_once` — `RFnOnce` takes at most one request over all calls: all executed segments
+  belong to one call.
+* `rfn_const_limit` — `RFn` never runs more than `max_concurrency` executions at a time.
+-/
+
+namespace Remoc.Rfn
+
+variable {f : Fun}
+
+/-- **Fresh result channel per request.** -/
+theorem rfn_result_channel_fresh (cfg : Cfg) (s : State f) (h : Reachable cfg s) (c c' : Nat)
+    (hc : c < s.n) (hc' : c' < s.n) (he : s.rch c = s.rch c') : c = c' := by
+  have hw := (inv_of_reachable cfg s h).wf
+  rw [hw.rch c hc, hw.rch c' hc'] at he; exact he
+
+/-- **A call is answered by its own execution.**  If call `c` returned the value `r`, the
+execution started from request `c`, with the argument of `c`, finished with `r`, and `r` was
+delivered to `c`; whatever sits in the result channel of `c` was put there by that execution. -/
+theorem rfn_reply_to_own_caller (cfg : Cfg) (s : State f) (h : Reachable cfg s) (c r : Nat) :
+    (s.cl c = .value r → Ev.fin c (s.arg c) r ∈ s.tr ∧ Ev.resp c r ∈ s.tr)
+    ∧ (c < s.n → s.chVal (s.rch c) = some r → Ev.fin c (s.arg c) r ∈ s.tr) := by
+  have hi := inv_of_reachable cfg s h
+  refine ⟨hi.rv.val c r, fun hlt hv => ?_⟩
+  rw [hi.wf.rch c hlt] at hv
+  exact hi.rv.chan c r hlt hv
+
+/-- **At most once.**  Every request is taken at most once, each segment of the function runs at
+most once for it, at most one execution of it ends.  If the call returned a value, exactly one
+execution ended, it carries the argument passed, and every segment `0 … nseg` ran exactly once.
+(An error outcome therefore means at most one execution, possibly a partial one.) -/
+theorem rfn_at_most_once (cfg : Cfg) (s : State f) (h : Reachable cfg s) (c : Nat) :
+    (deqCount c s.tr ≤ 1 ∧ endCount c s.tr ≤ 1 ∧ ∀ k, segCount c k s.tr ≤ 1)
+    ∧ (∀ r, s.cl c = .value r →
+        Ev.fin c (s.arg c) r ∈ s.tr ∧ endCount c s.tr = 1 ∧ deqCount c s.tr = 1
+          ∧ ∀ k, k ≤ f.nseg (s.arg c) → segCount c k s.tr = 1)
+    ∧ (∀ a r, Ev.fin c a r ∈ s.tr → a = s.arg c) := by
+  have hi := inv_of_reachable cfg s h
+  refine ⟨hi.cn.post c, fun r hv => ?_, fun a r hf => (hi.cn.fin c a r hf).1⟩
+  have hf := (hi.rv.val c r hv).1
+  have := hi.cn.fin c _ r hf
+  exact ⟨hf, this.2.2.1, this.2.2.2.1, this.2.2.2.2⟩
+
+/-- a request that is still on its way or in the queue has not been executed at all -/
+theorem rfn_not_executed_before_dispatch (cfg : Cfg) (s : State f) (h : Reachable cfg s) (c : Nat)
+    (hs : s.stage c = .sending ∨ s.stage c = .queued) :
+    deqCount c s.tr = 0 ∧ endCount c s.tr = 0 ∧ ∀ k, segCount c k s.tr = 0 := by
+  have := (inv_of_reachable cfg s h).cn.pre c hs
+  exact ⟨this.1, this.2.1, this.2.2.1⟩
+
+/-- **`RFnMut` executes serially, in dequeue order, linearizably** (also `RFnOnce`).  In every
+reachable state at most one request executes; the executions recorded in the trace never overlap
+(`Serial`: between the moment a request is taken and the end of its execution no other request is
+taken and no segment of another request runs); the executions ended in the order in which the
+requests were taken (`deqOrder = endOrder ++ [the one in progress]`); every finished execution
+returned what the sequential function returns in the state left by the executions that ended
+before it (`SeqOk`), and when nothing executes the captured state is that sequential state. -/
+theorem rfn_mut_serial (cfg : Cfg) (hfl : cfg.fl ≠ .const) (s : State f) (h : Reachable cfg s) :
+    (∀ c c', s.stage c = .executing → s.stage c' = .executing → c' = c)
+    ∧ Serial s.tr
+    ∧ deqOrder s.tr = endOrder s.tr ++ s.loop.cur.toList
+    ∧ SeqOk f f.σ0 s.tr
+    ∧ ((∀ c, s.stage c ≠ .executing) → s.σ = seqState f f.σ0 s.tr) := by
+  obtain ⟨hi, hs⟩ := sinv_of_reachable cfg hfl s h
+  have hrun : ∀ x, s.stage x = .executing → s.loop = .running x := by
+    intro x hx
+    rcases (hi.st.exec x).1 hx with h1 | h1
+    · exact h1
+    · rw [hi.st.serialNoExecs hfl] at h1; cases h1
+  refine ⟨fun c c' hc hc' => ?_, ?_, hs.ser.order, hs.lin.ok, fun hno => ?_⟩
+  · have h1 := hrun c hc
+    have h2 := hrun c' hc'
+    rw [h1] at h2
+    exact (Loop.running.inj h2).symm
+  · simp [Serial, hs.ser.scan]
+  · apply hs.lin.idle
+    cases hl : s.loop with
+    | running c => exact absurd ((hi.st.exec c).2 (Or.inl hl)) (hno c)
+    | _ => rfl
+
+/-- **`RFnOnce` runs at most once over all calls**: at most one request is ever taken, and all
+executed segments belong to that one call. -/
+theorem rfn_once_once (cfg : Cfg) (hfl : cfg.fl = .once) (s : State f) (h : Reachable cfg s) :
+    (deqOrder s.tr).length ≤ 1
+    ∧ ∀ c c' k k', Ev.seg c k ∈ s.tr → Ev.seg c' k' ∈ s.tr → c = c' := by
+  have ho := once_of_reachable cfg hfl s h
+  have hi := inv_of_reachable cfg s h
+  refine ⟨ho.le, ?_⟩
+  -- a call with an executed segment has been taken
+  have taken : ∀ c k, Ev.seg c k ∈ s.tr → c ∈ deqOrder s.tr := by
+    intro c k hm
+    have hseg : 0 < segCount c k s.tr := by
+      simp only [segCount]
+      exact List.countP_pos_iff.2 ⟨_, hm, by simp [isSeg]⟩
+    have := hi.sd.le c k
+    exact mem_deqOrder_of_count c s.tr (by omega)
+  intro c c' k k' h1 h2
+  have m1 := taken c k h1
+  have m2 := taken c' k' h2
+  cases hd : deqOrder s.tr with
+  | nil => rw [hd] at m1; cases m1
+  | cons x t =>
+    have hle := ho.le
+    rw [hd] at m1 m2 hle
+    have ht : t = [] := by
+      cases t with
+      | nil => rfl
+      | cons y u => simp at hle
+    subst ht
+    simp at m1 m2
+    rw [m1, m2]
+
+/-- **`RFn` respects `max_concurrency`**: the executions in progress are exactly those holding a
+permit, and there are never more than `limit` of them. -/
+theorem rfn_const_limit (cfg : Cfg) (hfl : cfg.fl = .const) (s : State f) (h : Reachable cfg s) :
+    s.execs.length ≤ cfg.limit ∧ ∀ c, s.stage c = .executing ↔ c ∈ s.execs := by
+  have hs := (inv_of_reachable cfg s h).st
+  refine ⟨hs.lim, fun c => ?_⟩
+  rw [hs.exec c]
+  constructor
+  · rintro (h1 | h1)
+    · exact absurd h1 (hs.constNoRun hfl c)
+    · exact h1
+  · exact Or.inr
+
+/-! ### non-vacuity: concrete runs that meet the hypotheses -/
+
+/-- `RFnMut`, two calls (the second issued while the first executes): both return values, the
+sequential history is `add 5 → 10`, `add 7 → 24`, executed in dequeue order -/
+example : (run (cfgOf .mut false) (init addFn) runSerial).cl 0 = .value 10
+    ∧ (run (cfgOf .mut false) (init addFn) runSerial).cl 1 = .value 24
+    ∧ sumVal (run (cfgOf .mut false) (init addFn) runSerial) = 24
+    ∧ deqOrder (run (cfgOf .mut false) (init addFn) runSerial).tr = [0, 1]
+    ∧ endOrder (run (cfgOf .mut false) (init addFn) runSerial).tr = [0, 1]
+    ∧ segCount 1 0 (run (cfgOf .mut false) (init addFn) runSerial).tr = 1
+    ∧ segCount 1 1 (run (cfgOf .mut false) (init addFn) runSerial).tr = 1
+    ∧ endCount 1 (run (cfgOf .mut false) (init addFn) runSerial).tr = 1 := by
+  decide
+
+/-- a state of that run in which request 0 executes while request 1 waits in the queue
+(hypotheses of the exclusivity clause of `rfn_mut_serial`) -/
+example : (run (cfgOf .mut false) (init addFn) (runSerial.take 6)).stage 0 = .executing
+    ∧ (run (cfgOf .mut false) (init addFn) (runSerial.take 6)).stage 1 = .queued
+    ∧ (run (cfgOf .mut false) (init addFn) (runSerial.take 6)).loop = .running 0
+    ∧ step (cfgOf .mut false) (run (cfgOf .mut false) (init addFn) (runSerial.take 6)) .dequeue = none := by
+  decide
+
+example : Reachable (cfgOf .mut false) (run (cfgOf .mut false) (init addFn) runSerial) := ⟨runSerial, rfl⟩
+
+/-- `RFnOnce` with a (hypothetical) duplicate request: one request is taken, the other call fails -/
+example : deqOrder (run (cfgOf .once false) (init addFn) runOnce).tr = [0]
+    ∧ (run (cfgOf .once false) (init addFn) runOnce).cl 0 = .value 10
+    ∧ (run (cfgOf .once false) (init addFn) runOnce).cl 1 = .error
+    ∧ (run (cfgOf .once false) (init addFn) runOnce).loop = .stopped .onceTaken
+    ∧ Ev.seg 0 1 ∈ (run (cfgOf .once false) (init addFn) runOnce).tr := by
+  decide
+
+/-- `RFn` with `max_concurrency = 1`: both requests are handed to tasks at once, the second gets
+its permit only when the first execution is over; both calls return values -/
+example : (run (cfgOf .const false 1) (init addFn) (runConst.take 8)).execs = [0]
+    ∧ (run (cfgOf .const false 1) (init addFn) (runConst.take 8)).stage 1 = .spawned
+    ∧ (run (cfgOf .const false 1) (init addFn) runConst).cl 0 = .value 10
+    ∧ (run (cfgOf .const false 1) (init addFn) runConst).cl 1 = .value 24 := by
+  decide
+
+end Remoc.Rfn
